@@ -9,6 +9,18 @@
 //   coroutines take their next command from the scenario (lazy program), the worker coroutine is
 //   observed through the interposed clock / condition variable (virtual time).  The state reached
 //   by a step is compared when the next event occurs (nothing runs in between).
+// start(awaitable), the awaited operation (coroutine 1).  The specification lets it end with no value / a value /
+//   an exception / a dropped promise (CoFinish(1, r, via)) and demands that start() returns / returns that value /
+//   rethrows that exception / throws await_canceled_exception (StartReturn(r)).  The replayer looks the end of the
+//   run up in the scenario and builds the awaitable accordingly (the static type has to be chosen before the run):
+//     via "direct": start(async<T>&&), start(async<T>&) or start(future<T>&) with the future fed by the coroutine
+//                   (rotating; T = void / int; the coroutine co_returns or throws);
+//     via "queued": start(future<T>&) whose promise<T> the (detached) coroutine 1 holds and resolves by hand: p(),
+//                   p(value), p(exception_ptr), p(cocls::drop) / ~promise -- the suspend_point is discarded, so the
+//                   callback_await coroutine of start() travels through the coro_queue (entity -2 in "rq", told from
+//                   the worker by elimination: handles that were queued before the promise was resolved).
+//   StartAgain: start() is called again on the SAME scheduler object (sleeps left pending stay scheduled, their
+//   coroutines stay suspended; the virtual clock goes on), with a new awaited operation.
 // A scenario spans several scheduler lifetimes (... Destroy, Construct, ... / ... DestroyAfterStart,
 // Restart, ...); in start mode it may end in the middle of a run (paths are cut at a maximal length):
 // the run is then left to finish unobserved.
@@ -42,7 +54,7 @@
 //          "tm":{"e":ns,"u":ns,"off":[ns..]},"forms":[..],"phase":k}
 // projection (built by tools/checks/c12.py proj()):
 //   {"destroyed":b,"fut":[{"co","st","tp"}..],"gen":{"st","stp"},"heap":[{"id","k","tp"}..]}
-//   start mode adds {"cst":[{"st","wat","wst"}..],"now":n,"phase":s,"rq":[..]}
+//   start mode adds {"cst":[{"st","wat","wst"}..],"now":n,"phase":s,"rq":[..],"res":s,"runs":n}
 //
 // Interposed in THIS executable (no wall clock, no blocking):
 //   clock_gettime(CLOCK_REALTIME)     -> virtual clock (system_clock::now() of libstdc++ ends here)
@@ -162,6 +174,7 @@ static void on_alarm(int) {
 // probes
 // ---------------------------------------------------------------------------------------------
 struct CustomExc : std::exception {};
+struct MainExc : std::exception {};     // what the awaited operation of start() ends with ("exc")
 
 struct Probe : cocls::scheduler {
     template <typename Fn>
@@ -637,6 +650,19 @@ struct StartWorld : World, vt::Hooks {
     bool truncated = false;      // the scenario ended in the middle of a run (paths are cut at a maximal length)
     std::string phase = "active";
     std::map<int, std::string> expect;   // completions the step in progress must cause
+    // the awaited operation of this run (see the head comment)
+    struct Plan { std::string r = "void", via = "direct"; bool val = false; int form = 0; int value = 0; bool by_dtor = false; };
+    Plan plan;
+    int run_no = 0;              // start() calls on this scheduler object before this one
+    std::string res = "none";    // what start() did: "void" | "val" | "exc" | "drop" | ...
+    std::optional<cocls::future<void>> mfv;   // the awaited future (forms that await a future)
+    std::optional<cocls::future<int>> mfi;
+    cocls::promise<void> mpv;                 // its promise, held by coroutine 1 (via "queued")
+    cocls::promise<int> mpi;
+    bool cb_may_queue = false;   // the promise was resolved by hand while start() awaited the future
+    std::set<void *> worker_hs;  // foreign handles that were queued before that: the worker coroutine
+    static inline long nruns = 0;   // start() calls in this process: rotates the awaitable forms
+    static inline std::map<std::string, long> main_uses;
 
     StartWorld(const Scenario &sc_, Reporter &rep_, std::size_t pos_) : World(sc_, rep_), pos(pos_) {
         start_mode = true;
@@ -654,7 +680,9 @@ struct StartWorld : World, vt::Hooks {
         J q = J::list();
         if (cocls::coro_queue::instance) {
             for (auto h : cocls::coro_queue::instance->_queue) {
-                int who = 0;   // a handle that is not one of ours is the worker coroutine
+                // a handle that is not one of ours is the worker coroutine, or -- after the awaited future was resolved
+                // by hand -- the callback_await coroutine of start() (it was not queued before that)
+                int who = cb_may_queue && !worker_hs.count(h.address()) ? -2 : 0;
                 for (int c = 1; c <= nc; c++) if (cos[(std::size_t) c].h == h.address()) who = c;
                 q.push(who);
             }
@@ -676,6 +704,8 @@ struct StartWorld : World, vt::Hooks {
             cl.push(e);
         }
         m.set("cst", cl);
+        m.set("res", res);
+        m.set("runs", run_no + 1);
         return m;
     }
 
@@ -719,19 +749,102 @@ struct StartWorld : World, vt::Hooks {
         if (st->name != "WorkerWait") wrong(st, "worker waits until " + tm.model(ns).dump());
     }
 
-    // ---- client coroutines
-    cocls::async<void> body(int c) {
+    // ---- the awaited operation of start(): plan, forms
+    // The run's end is looked up in the scenario: CoFinish(1, r, via) up to the next start().  A run the scenario
+    // leaves in the middle gets a void coroutine.
+    void make_plan() {
+        plan = Plan();
+        long n = World::phase + nruns++;
+        for (std::size_t i = pos; i < sc.steps.size(); i++) {
+            const Step &st = sc.steps[i];
+            if (st.name == "Restart" || st.name == "StartAgain") break;
+            if (st.name == "CoFinish" && st.iarg(0) == 1) { plan.r = st.sarg(1); plan.via = st.sarg(2); break; }
+        }
+        plan.val = plan.r == "val" || (plan.r != "void" && (n / 3) % 2 == 1);   // exceptions / drops: both instantiations
+        plan.form = (int) (n % 3);
+        plan.by_dtor = n % 2 == 1;
+        plan.value = 4200 + (int) (n % 97);
+    }
+    template <typename T> std::optional<cocls::future<T>> &main_future() { if constexpr (std::is_void_v<T>) return mfv; else return mfi; }
+    template <typename T> cocls::promise<T> &main_promise() { if constexpr (std::is_void_v<T>) return mpv; else return mpi; }
+
+    // what start(awt) did: "void" returned | "val" returned the planned value | "exc" threw the operation's exception |
+    // "drop" threw await_canceled_exception | something else (never expected)
+    template <typename T, typename A>
+    std::string call_start(A &&awt) {
+        try {
+            if constexpr (std::is_void_v<T>) {
+                static_assert(std::is_void_v<decltype(s->start(std::forward<A>(awt)))>);
+                s->start(std::forward<A>(awt));
+                return "void";
+            } else {
+                T v = s->start(std::forward<A>(awt));
+                return v == plan.value ? "val" : "val:" + std::to_string(v) + " instead of " + std::to_string(plan.value);
+            }
+        }
+        catch (const MainExc &) { return "exc"; }
+        catch (const cocls::await_canceled_exception &) { return "drop"; }
+        catch (const std::exception &e) { return std::string("exception ") + e.what(); }
+        catch (...) { return "unknown exception"; }
+    }
+    template <typename T>
+    std::string start_form() {
+        auto &mf = main_future<T>();
+        mf.reset();
+        std::string name = plan.via == "queued" ? "promise" : plan.form == 0 ? "async&&" : plan.form == 1 ? "async&" : "future(async)";
+        main_uses[name + (std::is_void_v<T> ? "<void>:" : "<int>:") + plan.r + (run_no ? ":again" : "")]++;
+        if (plan.via == "queued") {
+            mf.emplace();
+            main_promise<T>() = mf->get_promise();
+            { cocls::suspend_point<void> sp = body<void>(1).detach(); }   // runs now, under its own temporary coro_queue
+            return call_start<T>(*mf);
+        }
+        if (plan.form == 0) return call_start<T>(body<T>(1));
+        if (plan.form == 1) { cocls::async<T> a = body<T>(1); return call_start<T>(a); }
+        mf.emplace(body<T>(1));     // future<T>(async<T>&&): the coroutine starts now, under its own temporary coro_queue
+        return call_start<T>(*mf);
+    }
+    // via "queued": coroutine 1 resolves / drops the promise of the awaited future by hand and discards the suspend
+    // point.  planned = false: the scenario was left (divergence / truncated): drop it, so that start() ends.
+    template <typename T, typename... Args>
+    void resolve_main(const std::string &r, Args &&... value) {
+        cocls::promise<T> &p = main_promise<T>();
+        if (r == "void" || r == "val") (void) (bool) p(std::forward<Args>(value)...);
+        else if (r == "exc") (void) (bool) p(std::make_exception_ptr(MainExc()));
+        else if (plan.by_dtor) { cocls::promise<T> local(std::move(p)); }   // ~promise
+        else (void) (bool) p(cocls::drop);
+    }
+    void end_main_by_hand(bool planned) {
+        // whoever is queued now is not the callback_await coroutine of start(): that one still awaits the future
+        if (cocls::coro_queue::instance) {
+            for (auto h : cocls::coro_queue::instance->_queue) {
+                bool ours = false;
+                for (int c = 1; c <= nc; c++) ours |= cos[(std::size_t) c].h == h.address();
+                if (!ours) worker_hs.insert(h.address());
+            }
+        }
+        cb_may_queue = true;
+        std::string r = planned ? plan.r : "drop";
+        if (plan.val) resolve_main<int>(r, plan.value);
+        else resolve_main<void>(r);
+    }
+
+    // ---- client coroutines.  T: what the coroutine yields to its awaiter (coroutine 1 awaited directly: void / int)
+    template <typename T>
+    cocls::async<T> body(int c) {
         Co &me = cos[(std::size_t) c];
         if (c == 1) {
-            me.h = (co_await SelfHandle{}).address();
-            for (int i = 2; i <= nc; i++) {
+            std::coroutine_handle<> self = co_await SelfHandle{};
+            me.h = self.address();
+            for (int i = 2; i <= nc && run_no == 0; i++) {
                 // == body(i).detach() with the suspend point discarded: the handle goes to the queue
-                cocls::suspend_point<void> sp = body(i).detach();
+                cocls::suspend_point<void> sp = body<void>(i).detach();
                 std::coroutine_handle<> h = sp.pop();
                 cos[(std::size_t) i].h = h.address();
                 cocls::coro_queue::resume(h);
             }
         }
+        bool finished = false;
         for (;;) {
             const Step *st = begin_event("coroutine " + std::to_string(c) + " runs");
             if (!st) break;
@@ -739,7 +852,7 @@ struct StartWorld : World, vt::Hooks {
                 wrong(st, "coroutine " + std::to_string(c) + " runs");
                 break;
             }
-            if (st->name == "CoFinish") break;
+            if (st->name == "CoFinish") { finished = true; break; }
             if (st->name == "CoCancel") {
                 bool r;
                 if (st->sarg(2) == "exc") r = s->cancel(idptr(st->iarg(1)));
@@ -766,34 +879,54 @@ struct StartWorld : World, vt::Hooks {
             me.observed = true;
             me.wst = obs;
             me.wat = vt::now;          // the virtual time at which the sleeper actually runs
-            if (destroying) { me.st = "done"; co_return; }
+            if (destroying) { finished = false; break; }
             me.st = "ready";
         }
-        me.st = "done"; me.wst = "none"; me.wat = 0;
+        me.st = "done";
+        if (!destroying) { me.wst = "none"; me.wat = 0; }
+        if (c == 1 && !destroying) {
+            if (plan.via == "queued") end_main_by_hand(finished);
+            else if (finished && plan.r == "exc") throw MainExc();
+        }
+        if constexpr (std::is_void_v<T>) co_return;
+        else co_return T(plan.value);
     }
 
     void run() {
-        vt::hooks = this;
-        s->start(body(1));
-        vt::hooks = nullptr;
-        if (!aborting) {
-            const Step *st = begin_event("start() returns");
-            if (st) {
-                if (st->name != "StartReturn") wrong(st, "start() returns");
-                else phase = "returned";
+        for (;;) {
+            make_plan();
+            vt::hooks = this;
+            std::string got = plan.val ? start_form<int>() : start_form<void>();
+            vt::hooks = nullptr;
+            if (aborting) break;
+            const Step *st = begin_event("start() ends: " + got);
+            if (!st) break;
+            if (st->name != "StartReturn" || st->sarg(0) != got) {
+                wrong(st, "start() ends as '" + got + "' (void: returns; val: returns the value; exc: rethrows the exception of the "
+                          "awaited operation; drop: throws await_canceled_exception), awaitable " + plan.via + "/" + std::to_string(plan.form) +
+                          (plan.val ? "<int>" : "<void>"));
+                break;
             }
-        }
-        if (!aborting) {
-            const Step *st = begin_event("~scheduler");
-            if (st) {
-                if (st->name != "DestroyAfterStart") wrong(st, "~scheduler");
-                else {
-                    expect = all_pending_as("canceled");
-                    destroying = true;
-                    s.reset();
-                    phase = "destroyed";
-                }
+            phase = "returned";
+            res = got;
+            st = begin_event("~scheduler / start() again");
+            if (!st) break;
+            if (st->name == "StartAgain") {
+                // the same scheduler object, a new awaited operation; the other coroutines are where they are
+                run_no++;
+                phase = "active";
+                res = "none";
+                cos[1] = Co();
+                cb_may_queue = false;
+                worker_hs.clear();
+                continue;
             }
+            if (st->name != "DestroyAfterStart") { wrong(st, "~scheduler"); break; }
+            expect = all_pending_as("canceled");
+            destroying = true;
+            s.reset();
+            phase = "destroyed";
+            break;
         }
         if (!aborting) {
             std::string bad = audit(expect);
@@ -803,6 +936,8 @@ struct StartWorld : World, vt::Hooks {
         }
         destroying = true;
         teardown();
+        mfv.reset();
+        mfi.reset();
         for (int c = 1; c <= nc; c++) {
             if (cos[(std::size_t) c].st != "done" && !rep.failed())
                 rep.diverge(sc.steps.size() - 1, "coroutine " + std::to_string(c) + " never finished");
@@ -814,6 +949,7 @@ int main() {
     signal(SIGALRM, on_alarm);
     int rc = replay_main(std::cin, [](const Scenario &sc, Reporter &rep) {
         World::nsleeps = 0;
+        StartWorld::nruns = 0;
         vt::post_wait = false;
         vt::where = sc.id.c_str();
         vt::guard_locks = true;
@@ -851,5 +987,19 @@ int main() {
     printf("FORMS");
     for (auto &kv : World::form_uses) printf(" %s=%ld", kv.first.c_str(), kv.second);
     printf("\n");
+    // how often each form of the awaited operation of start() was used: form<T>:end[:again]
+    printf("MAINFORMS");
+    for (auto &kv : StartWorld::main_uses) printf(" %s=%ld", kv.first.c_str(), kv.second);
+    printf("\n");
+    if (const char *log = getenv("C12_FORMS_LOG")) {   // development aid: which forms a run used
+        if (FILE *f = fopen(log, "a")) {
+            fprintf(f, "FORMS");
+            for (auto &kv : World::form_uses) fprintf(f, " %s=%ld", kv.first.c_str(), kv.second);
+            fprintf(f, "\nMAINFORMS");
+            for (auto &kv : StartWorld::main_uses) fprintf(f, " %s=%ld", kv.first.c_str(), kv.second);
+            fprintf(f, "\n");
+            fclose(f);
+        }
+    }
     return rc;
 }
